@@ -164,7 +164,12 @@ int main(int argc, char **argv) {
                 for (uint64_t c = 0; c < ncom; ++c) {
                     t.comments.assign(npos, 0); uint64_t y = c; int cnt = 0; for (int i = 0; i < npos; ++i) { t.comments[i] = y % 3; y /= 3; cnt += t.comments[i] != 0; }
                     if (cnt > max_comments) continue;
-                    for (int nl = 0; nl < 2; ++nl) {
+                    // the edge count ANNOUNCED by the problem line is part of the text, not of the graph: the statement is "one edge per
+                    // 'e'/'a' line". Texts without comments are rendered with every announced count in {l, 0, 1, l-1, l+1, 2l}.
+                    std::vector<int> dms = {u.l};
+                    if (cnt == 0) for (int d : {0, 1, u.l - 1, u.l + 1, 2 * u.l}) if (d >= 0 && std::find(dms.begin(), dms.end(), d) == dms.end()) dms.push_back(d);
+                    for (int dm : dms) for (int nl = 0; nl < 2; ++nl) {
+                        t.decl_m = dm;
                         t.final_newline = nl;
                         std::string txt = render(t);
                         if (txt.empty()) continue;
